@@ -7,7 +7,10 @@ mod stripe;
 use std::io;
 
 use super::{ALPHABET_SIZE, Flags};
-use crate::io::reader::num::{read_u8, read_u32_le, read_uint7_as};
+use crate::{
+    codecs::alloc_zeroed,
+    io::reader::num::{read_u8, read_u32_le, read_uint7_as},
+};
 
 pub fn decode(mut src: &[u8], mut uncompressed_size: usize) -> io::Result<Vec<u8>> {
     let flags = read_flags(&mut src)?;
@@ -38,14 +41,18 @@ pub fn decode(mut src: &[u8], mut uncompressed_size: usize) -> io::Result<Vec<u8
         None
     };
 
-    let mut dst = vec![0; uncompressed_size];
-
-    if flags.is_uncompressed() {
-        dst.copy_from_slice(src);
-    } else if flags.order() == 0 {
-        order_0::decode(&mut src, &mut dst, state_count)?;
+    let mut dst = if flags.is_uncompressed() {
+        split_off(&mut src, uncompressed_size).map(Vec::from)?
     } else {
-        order_1::decode(&mut src, &mut dst, state_count)?;
+        let mut dst = alloc_zeroed(uncompressed_size)?;
+
+        if flags.order() == 0 {
+            order_0::decode(&mut src, &mut dst, state_count)?;
+        } else {
+            order_1::decode(&mut src, &mut dst, state_count)?;
+        }
+
+        dst
     };
 
     if let Some(ctx) = rle_context {
@@ -89,7 +96,11 @@ fn read_alphabet(src: &mut &[u8]) -> io::Result<[bool; ALPHABET_SIZE]> {
 
             for _ in 0..len {
                 alphabet[usize::from(sym)] = true;
-                sym += 1;
+
+                // A run cannot extend past the last symbol of the alphabet.
+                sym = sym.checked_add(1).ok_or_else(|| {
+                    io::Error::new(io::ErrorKind::InvalidData, "invalid symbol run in alphabet")
+                })?;
             }
         }
 
